@@ -493,3 +493,47 @@ def word_shape_rules(ctx, rule):
         else:
             ctx.fail(rule, k, nb.where(), "WordSplit::next no longer builds words as (start, start+len) with stem = len",
                      {"witness": "words overlap or lose their last character"})
+
+
+CLASS_PREDICATES = {
+    "Control": ("is_control", False), "Whitespace": ("is_whitespace", False), "Punctuation": ("is_punctuation", False),
+    "NotAlpha": ("is_alphabetic", True), "NotAlphaNum": ("is_alphanumeric", True),
+}
+
+
+def class_predicates(ctx, rule):
+    """R15.i: each CharClass arm of CharPattern::matches is the predicate its name says"""
+    mb = None
+    for b in ctx.facts.fns():
+        if b.kind == "method" and b.impl_trait and b.impl_trait.endswith("CharPattern") and (b.impl_self or "").endswith("CharClass"):
+            mb = b
+    if not ctx.require(rule, "CharClass::matches", mb):
+        return
+    sw = [x for x in U.enum_switches(ctx, mb) if x[1]["id"].endswith("CharClass")]
+    if not ctx.require(rule, "match-on-class", sw, mb.where()):
+        return
+    bi, adt, arms, other = sw[0]
+    for cls, (pred, negated) in sorted(CLASS_PREDICATES.items()):
+        key = "class-predicate:%s" % cls
+        e = U.arm_ret_expr(ctx, mb, arms[cls]) if cls in arms else None
+        ok = False
+        if e is not None and e[0] == "agg" and e[2].endswith("Option::Some"):
+            x = e[3][0]
+            if negated and x[0] == "unop" and x[1] == "Not":
+                x = x[2]
+                ok = x[0] == "call" and x[1].endswith("::" + pred) and S.strip_refs(x[2][0]) == ("arg", 2)
+            elif not negated:
+                ok = x[0] == "call" and x[1].endswith("::" + pred) and S.strip_refs(x[2][0]) == ("arg", 2)
+        if ok:
+            ctx.ok(rule, key, mb.where(), "CharClass::%s matches exactly %s%s(ch)" % (cls, "!" if negated else "", pred), nontrivial=True)
+        else:
+            ctx.fail(rule, key, mb.where(), "CharClass::%s is no longer `%s%s(ch)`: %s" % (cls, "!" if negated else "", pred,
+                                                                                         S.show(e, mb)[:120] if e else "arm not found"),
+                     {"witness": "characters of that class at a word edge are kept / letters or digits are stripped, e.g. a "
+                                 "non-ASCII digit '５' or a tab"})
+    # Any arm: Some(true)
+    e = U.arm_ret_expr(ctx, mb, arms["Any"]) if "Any" in arms else None
+    if e is not None and e[0] == "agg" and e[2].endswith("Option::Some") and S.const_value(e[3][0]) is True:
+        ctx.ok(rule, "class-predicate:Any", mb.where(), "CharClass::Any matches everything")
+    else:
+        ctx.fail(rule, "class-predicate:Any", mb.where(), "CharClass::Any no longer matches everything")
